@@ -44,6 +44,7 @@ var (
 	cSixCustom  = simrt.RegisterCounter("probe_more_than_five_custom_channels")
 	cLookup     = simrt.RegisterCounter("probe_lookups")
 	cBeyondPlan = simrt.RegisterCounter("probe_device_set_with_channel_beyond_plan")
+	cBlockOps   = simrt.RegisterCounter("op_whole_block_enable_disable")
 )
 
 var names = []band.Name{band.EU868, band.US915, band.AU915, band.AS923, band.AS923_2, band.AS923_3, band.AS923_4,
@@ -88,12 +89,13 @@ func gridFreq(name string, r *sim.Rand) uint32 {
 }
 
 type state struct {
-	name  string
-	b     band.Band
-	m     *spec.Plan
-	std   []band.Channel // initial snapshot of standard channels
-	grid  map[int]bool   // custom channels whose arguments were chosen on the region's grid
-	steps int
+	name     string
+	b        band.Band
+	m        *spec.Plan
+	std      []band.Channel // initial snapshot of standard channels
+	grid     map[int]bool   // custom channels whose arguments were chosen on the region's grid
+	enabled0 []int          // enabled set of the brand-new band
+	steps    int
 }
 
 func operator(name band.Name, rep bool, dt lorawan.DwellTime, nOps int, sub uint64) {
@@ -110,6 +112,7 @@ func operator(name band.Name, rep bool, dt lorawan.DwellTime, nOps int, sub uint
 	enabled := map[int]bool{}
 	for _, i := range b.GetEnabledUplinkChannelIndices() {
 		enabled[i] = true
+		st.enabled0 = append(st.enabled0, i)
 	}
 	for _, i := range b.GetUplinkChannelIndices() {
 		c, err := b.GetUplinkChannel(i)
@@ -136,6 +139,20 @@ func operator(name band.Name, rep bool, dt lorawan.DwellTime, nOps int, sub uint
 	st.closure(r)
 	if nOps > 0 {
 		simrt.Count(cNontrivial)
+	}
+	// a brand-new band object of the same configuration still looks like the
+	// one this task started from
+	if nb, err := band.GetConfig(name, rep, dt); err == nil {
+		same := len(nb.GetUplinkChannelIndices()) == len(st.std) && spec.EqualInts(nb.GetEnabledUplinkChannelIndices(), st.enabled0)
+		for i := 0; same && i < len(st.std); i++ {
+			c, _ := nb.GetUplinkChannel(i)
+			if c != st.std[i] {
+				same = false
+			}
+		}
+		if !same {
+			simrt.Report("band.fresh-config-changed:"+st.name, fmt.Sprintf("%s: a band obtained from GetConfig after this task's history differs from the one obtained before it", st.name))
+		}
 	}
 }
 
@@ -165,6 +182,31 @@ func boundaryInt(r *sim.Rand, n int) int {
 
 func (st *state) op(r *sim.Rand) {
 	n := len(st.m.Chans)
+	// operators of the big fixed plans work in whole sub-bands / 16-channel blocks
+	if n >= 32 && r.Intn(3) == 0 {
+		size := 8
+		if r.Intn(2) == 0 {
+			size = 16
+		}
+		base := size * r.Intn(n/size)
+		enable := r.Intn(3) == 0
+		simrt.Count(cBlockOps)
+		for j := base; j < base+size && j < n; j++ {
+			var err error
+			if enable {
+				err = st.b.EnableUplinkChannelIndex(j)
+			} else {
+				err = st.b.DisableUplinkChannelIndex(j)
+			}
+			if err != nil {
+				simrt.Report("p2.error-on-valid:block-op", fmt.Sprintf("%s: enable/disable of valid index %d failed: %v", st.name, j, err))
+				continue
+			}
+			st.m.Chans[j].Enabled = enable
+		}
+		simrt.Trace(evOp, 4, uint64(base))
+		return
+	}
 	switch k := r.Intn(10); {
 	case k < 4:
 		// AddChannel
